@@ -20,6 +20,7 @@ fn main() {
                 "headermap" => areas::headermap::replay(&cases, &mut out),
                 "payload" => areas::payload::replay(&cases, &mut out),
                 "h1" => areas::h1::replay(&cases, &mut out),
+                "ws" => areas::ws::replay(&cases, &mut out),
                 _ => {
                     eprintln!("unknown area {area}");
                     std::process::exit(2);
